@@ -140,7 +140,8 @@ template<typename F> FM_INLINE auto with_int_type(int type, F && f)
     {
     case T_I8: return f(int8_t{}); case T_I16: return f(int16_t{}); case T_I32: return f(int32_t{});
     case T_I64: return f(int64_t{}); case T_U8: return f(uint8_t{}); case T_U16: return f(uint16_t{});
-    case T_U32: return f(uint32_t{}); default: return f(uint64_t{});
+    case T_U32: return f(uint32_t{}); case T_LL: return f(static_cast<long long>(0)); case T_ULL: return f(static_cast<unsigned long long>(0));
+    default: return f(uint64_t{});
     }
   }
 template<typename F> FM_INLINE auto with_how3(int how, F && f)
@@ -196,6 +197,7 @@ template<typename F> FM_INLINE auto with_any_type(int type, F && f)
     case T_I8: return f(int8_t{}); case T_I16: return f(int16_t{}); case T_I32: return f(int32_t{});
     case T_I64: return f(int64_t{}); case T_U8: return f(uint8_t{}); case T_U16: return f(uint16_t{});
     case T_U32: return f(uint32_t{}); case T_U64: return f(uint64_t{}); case T_F32: return f(float{});
+    case T_LL: return f(static_cast<long long>(0)); case T_ULL: return f(static_cast<unsigned long long>(0));
     default: return f(double{});
     }
   }
@@ -403,6 +405,7 @@ FM_EXPORT i64 fm_xangle(int fn, int type, u64 bits)
       case T_U8: return xangle_call<FN,uint8_t>(bits); case T_U16: return xangle_call<FN,uint16_t>(bits);
       case T_U32: return xangle_call<FN,uint32_t>(bits); case T_U64: return xangle_call<FN,uint64_t>(bits);
       case T_F32: return xangle_call<FN,float>(bits);
+      case T_LL: return xangle_call<FN,long long>(bits); case T_ULL: return xangle_call<FN,unsigned long long>(bits);
       default: return un_call<FN==A_SIN ? U_SIN_ANGLE_FX : FN==A_COS ? U_COS_ANGLE_FX : U_TAN_ANGLE_FX>(static_cast<i64>(bits));
       }
     });
